@@ -1148,9 +1148,14 @@ fn pcf_map(schema: &Map<String, JsonValue>, defined_names: &mut HashSet<String>)
 
         // Strip off quotes surrounding "size" type, if they exist ([INTEGERS] rule).
         if k == "size" || k == "precision" || k == "scale" {
+            // A fixed size can exceed `i64::MAX` (it is a `usize`), so go through `i128`.
             let i = match v.as_str() {
-                Some(s) => s.parse::<i64>().expect("Only valid schemas are accepted!"),
-                None => v.as_i64().unwrap(),
+                Some(s) => s.parse::<i128>().expect("Only valid schemas are accepted!"),
+                None => v
+                    .as_i64()
+                    .map(i128::from)
+                    .or_else(|| v.as_u64().map(i128::from))
+                    .expect("Only valid schemas are accepted!"),
             };
             fields.push((k, format!("{}:{}", pcf_string(k), i)));
             continue;
